@@ -76,7 +76,9 @@ func (o *oracles) checkAtomic(op Op, r OpResult) {
 	switch op.K {
 	case "AddTag":
 		exp[op.Name] = tagProj{Def: op.Def, Color: op.Color}
+		delete(o.ackMarks, op.Name)
 	case "DelTag":
+		delete(o.ackMarks, op.Name)
 		if len(before[op.Name].RefBy) != 0 {
 			if o.violate("graph", "deleted-referenced", fmt.Sprintf("DelTag(%s) succeeded although %v reference it", op.Name, before[op.Name].RefBy)) {
 				return
@@ -93,6 +95,7 @@ func (o *oracles) checkAtomic(op Op, r OpResult) {
 		p := exp[op.Name]
 		p.Def = op.Def
 		exp[op.Name] = p
+		delete(o.ackMarks, op.Name) // the new definition says which streams are marked now
 	case "UpdName":
 		if op.NewName != "" {
 			if len(before[op.Name].RefBy) != 0 {
@@ -103,6 +106,10 @@ func (o *oracles) checkAtomic(op Op, r OpResult) {
 			p := exp[op.Name]
 			delete(exp, op.Name)
 			exp[op.NewName] = p
+			if m, ok := o.ackMarks[op.Name]; ok {
+				delete(o.ackMarks, op.Name)
+				o.ackMarks[op.NewName] = m
+			}
 		}
 	case "SetConv":
 		p := exp[op.Name]
@@ -111,6 +118,20 @@ func (o *oracles) checkAtomic(op Op, r OpResult) {
 		p.Convs = dedup(cs)
 		exp[op.Name] = p
 	case "MarkAdd", "MarkDel":
+		// acknowledged marks stay until they are taken back (checked after every step)
+		if o.ackMarks == nil {
+			o.ackMarks = map[string]map[uint64]bool{}
+		}
+		if o.ackMarks[op.Name] == nil {
+			o.ackMarks[op.Name] = map[uint64]bool{}
+		}
+		for _, id := range op.IDs {
+			if op.K == "MarkAdd" {
+				o.ackMarks[op.Name][id] = true
+			} else {
+				delete(o.ackMarks[op.Name], id)
+			}
+		}
 		// definition is rewritten by the service; membership is checked below
 		p := exp[op.Name]
 		p.Def = after[op.Name].Def
@@ -194,6 +215,23 @@ func unionKeys(a, b map[string]tagProj) []string {
 // checkGraph: well-formedness of the tag graph after every step.
 func (o *oracles) checkGraph() {
 	st := o.state
+	// acknowledged marks: a stream added to a mark tag by an acknowledged call
+	// stays marked (matching or pending) until a call takes it back — whatever
+	// job of that tag completes in between
+	for _, t := range st.Tags {
+		acked := o.ackMarks[t.Name]
+		if len(acked) == 0 {
+			continue
+		}
+		M, U := setOf(t.Matches), setOf(t.Uncertain)
+		for _, id := range sortedU64(acked) {
+			if !M[uint(id)] && !U[uint(id)] {
+				if o.violate("atomic", "mark-lost", fmt.Sprintf("stream %d was added to %s by an acknowledged call and nothing took it back, but the tag (definition %q) matches %v", id, t.Name, t.Definition, t.Matches)) {
+					return
+				}
+			}
+		}
+	}
 	refs := map[string][]string{}
 	for _, t := range st.Tags {
 		refs[t.Name] = t.References
@@ -259,4 +297,13 @@ func (o *oracles) checkGraph() {
 		}
 	}
 	o.s.res.Count("c11_graph_checks", 1)
+}
+
+func sortedU64(m map[uint64]bool) []uint64 {
+	l := make([]uint64, 0, len(m))
+	for k := range m {
+		l = append(l, k)
+	}
+	sort.Slice(l, func(i, j int) bool { return l[i] < l[j] })
+	return l
 }
